@@ -1,6 +1,6 @@
 (* C01 Link: constants, call skeletons and benign-outcome predicates regenerated from the Go
    source are the ones the model and the statement use. *)
-From God Require Import Base.Prelude C09.RW C01.GenEnv C01.Spec C01.Model C01.Exec.
+From God Require Import Base.Prelude C09.RW C09.Integ C01.GenEnv C01.Spec C01.Model C01.Exec.
 From Coq Require Import QArith String.
 From GodGen Require C01_Gen.
 Local Open Scope Z_scope.
@@ -55,28 +55,46 @@ Lemma link_grpc_cases :
     [(["codes.DeadlineExceeded"; "codes.Internal"; "codes.Unavailable"; "codes.DataLoss"; "codes.Unimplemented"], "false");
      ([], "true")]%string.
 Proof. reflexivity. Qed.
+(* name of a gRPC code constant -> its number (google.golang.org/grpc/codes) *)
+Definition grpc_code (nm : string) : Z :=
+  let tbl := [("codes.OK", 0); ("codes.Canceled", 1); ("codes.Unknown", 2); ("codes.InvalidArgument", 3);
+              ("codes.DeadlineExceeded", 4); ("codes.NotFound", 5); ("codes.AlreadyExists", 6);
+              ("codes.PermissionDenied", 7); ("codes.ResourceExhausted", 8); ("codes.FailedPrecondition", 9);
+              ("codes.Aborted", 10); ("codes.OutOfRange", 11); ("codes.Unimplemented", 12); ("codes.Internal", 13);
+              ("codes.Unavailable", 14); ("codes.DataLoss", 15); ("codes.Unauthenticated", 16)]%string in
+  match alookup String.eqb nm tbl with Some c => c | None => -1 end.
+
+(* codes.Acceptable read off the generated case table: first matching clause, else the default clause *)
+Definition gen_grpc_acceptable (c : Z) : bool :=
+  let fix go (rows : list (list string * string)) (dflt : bool) : bool :=
+    match rows with
+    | [] => dflt
+    | (consts, ret) :: r =>
+        if existsb (fun nm => grpc_code nm =? c) consts then String.eqb ret "true" else go r dflt
+    end in
+  let dflt := existsb (fun row => match fst row with [] => String.eqb (snd row) "true" | _ => false end) C01_Gen.grpc_cases in
+  go C01_Gen.grpc_cases dflt.
+
+
+Lemma link_grpc_gen : forall c, gen_grpc_acceptable c = grpc_acceptable c.
+Proof.
+  intro c. unfold gen_grpc_acceptable, grpc_acceptable. rewrite link_grpc_cases. cbn -[Z.eqb].
+  rewrite (Z.eqb_sym 4 c), (Z.eqb_sym 13 c), (Z.eqb_sym 14 c), (Z.eqb_sym 15 c), (Z.eqb_sym 12 c).
+  destruct (c =? 4), (c =? 13), (c =? 14), (c =? 15), (c =? 12); reflexivity.
+Qed.
 Lemma link_grpc : forall c, 0 <= c <= 16 ->
   grpc_acceptable c = negb (existsb (Z.eqb c) [4; 13; 14; 15; 12]).
-Proof.
-  intros c Hc.
-  assert (H : c = 0 \/ c = 1 \/ c = 2 \/ c = 3 \/ c = 4 \/ c = 5 \/ c = 6 \/ c = 7 \/ c = 8 \/ c = 9 \/ c = 10 \/
-              c = 11 \/ c = 12 \/ c = 13 \/ c = 14 \/ c = 15 \/ c = 16) by lia.
-  repeat (destruct H as [-> | H]; [vm_compute; reflexivity|]). subst; vm_compute; reflexivity.
-Qed.
+Proof. reflexivity. Qed.
 (* sqlx: nil, ErrNoRows, ErrTxDone, context.Canceled are acceptable whatever the user predicate is;
    without a user predicate nothing else is *)
-Lemma link_sqlx : forall f e,
-  C01_Gen.sqlx_acceptable f e =
-    (existsb (Z.eqb e) [go_nil; sql_ErrNoRows; sql_ErrTxDone; context_Canceled] ||
-     (negb (f =? 0) && f_accept_fn e))%bool.
+Lemma link_sqlx : forall f e, C01_Gen.sqlx_acceptable f e = m_sqlx f e.
 Proof.
-  intros f e. unfold C01_Gen.sqlx_acceptable, go_eqb, go_nil. simpl existsb.
+  intros f e. unfold C01_Gen.sqlx_acceptable, m_sqlx, go_eqb, go_nil. simpl existsb.
   destruct (f =? 0), (e =? 0), (e =? sql_ErrNoRows), (e =? sql_ErrTxDone), (e =? context_Canceled), (f_accept_fn e); reflexivity.
 Qed.
-Lemma link_redis : forall e,
-  C01_Gen.redis_acceptable e = existsb (Z.eqb e) [go_nil; red_Nil; context_Canceled].
+Lemma link_redis : forall e, C01_Gen.redis_acceptable e = m_redis e.
 Proof.
-  intro e. unfold C01_Gen.redis_acceptable, go_eqb. simpl.
+  intro e. unfold C01_Gen.redis_acceptable, m_redis, go_eqb. simpl.
   destruct (e =? go_nil), (e =? red_Nil), (e =? context_Canceled); reflexivity.
 Qed.
 Lemma link_default_acceptable : forall e, C01_Gen.default_acceptable e = (e =? go_nil).
@@ -88,8 +106,8 @@ Lemma benign_pred which arg : (which <= 2)%nat -> (which = 0%nat -> 0 <= arg <= 
 Proof.
   intros Hw Hg Hb. destruct which as [|[|[|w]]]; try lia; unfold benign, pred in *.
   - rewrite link_grpc by auto. exact Hb.
-  - rewrite link_sqlx. apply orb_true_iff. left. exact Hb.
-  - rewrite link_redis. simpl in *. rewrite orb_false_r in *.
+  - unfold m_sqlx. apply orb_true_iff. left. exact Hb.
+  - unfold m_redis. simpl in *. rewrite orb_false_r in *.
     unfold go_nil, red_Nil, context_Canceled. rewrite orb_assoc in Hb.
     destruct (arg =? 0), (arg =? 3), (arg =? 4); simpl in *; auto.
 Qed.
@@ -135,12 +153,22 @@ Lemma site_benign : forall arg, 0 <= arg ->
   (benign 7 arg = true -> pred 7 arg = true) /\ (benign 8 arg = true -> pred 8 arg = true).
 Proof.
   intros arg Ha. split; intro Hb; unfold benign, pred in *.
-  - set (cl := arg mod 100) in *. cbv zeta. rewrite link_sqlx. apply orb_true_iff. left.
+  - set (cl := arg mod 100) in *. cbv zeta. unfold m_sqlx. apply orb_true_iff. left.
     assert (Hcl : cl = 0 \/ cl = 1 \/ cl = 2 \/ cl = 3).
     { simpl in Hb. rewrite orb_false_r in Hb. repeat (apply orb_true_iff in Hb as [Hb|Hb]); lia. }
     destruct Hcl as [-> | [-> | [-> | ->]]]; reflexivity.
-  - rewrite link_redis. set (cl := arg mod 100) in *.
+  - unfold m_redis. set (cl := arg mod 100) in *.
     assert (Hcl : cl = 0 \/ cl = 3 \/ cl = 4).
     { simpl in Hb. rewrite orb_false_r in Hb. repeat (apply orb_true_iff in Hb as [Hb|Hb]); lia. }
     destruct Hcl as [-> | [-> | ->]]; reflexivity.
+Qed.
+
+(* ---- round 5 ---- *)
+(* through the engine's default chain the breaker's mark is a success exactly when the client's status is below 500,
+   for every response shape; a handler that panics is a failure (RecoverHandler inside turns it into a 500) *)
+Lemma engine_marks : (forall cl c, h_mark cl c = h_benign cl c) /\ (forall cl c, (4 <= cl)%nat -> h_mark cl c = false).
+Proof.
+  split.
+  - intros cl c. unfold h_mark, h_benign, http_mark. destruct cl as [|[|[|cl]]]; reflexivity.
+  - intros cl c H. destruct cl as [|[|[|[|cl]]]]; try lia; reflexivity.
 Qed.
